@@ -140,7 +140,9 @@ func genBasePlaceholderName(node ast.Node, defaultName string) string {
 func genBasePlaceholderNameFromExpr(expr ast.Node, defaultName string) string {
 	switch expr := expr.(type) {
 	case *ast.GlobalNode:
-		return toUpperUnderscore(expr.Name)
+		// (the part after the last dot, as in the official algorithm: a dotted
+		// name is not a placeholder name and would not survive a catalogue.)
+		return toUpperUnderscore(expr.Name[strings.LastIndex(expr.Name, ".")+1:])
 	case *ast.DataRefNode:
 		if len(expr.Access) == 0 {
 			return toUpperUnderscore(expr.Key)
